@@ -186,13 +186,33 @@ def _observe(sc, name):
                 sc.get_points_component_grid(g.levelvector)
                 sc.get_points_and_weights_component_grid(g.levelvector)
                 sc.get_num_points_component_grid(g.levelvector, False)
+        elif name == "refused_out_of_box_interpolation":
+            # a request the library refuses (a point outside the box): the exception is the caller's to catch, the object must go on working
+            lo, hi = np.array(sc.a, dtype=float), np.array(sc.b, dtype=float)
+            try:
+                sc([tuple(lo + 0.5 * (hi - lo)), tuple(hi + 0.5 * (hi - lo))])
+            except Exception:
+                pass
+        elif name == "refused_out_of_box_grid_interpolation":
+            lo, hi = np.array(sc.a, dtype=float), np.array(sc.b, dtype=float)
+            try:
+                sc.interpolate_grid([[lo[k] - 1.0, lo[k] + 0.5 * (hi[k] - lo[k])] for k in range(len(lo))])
+            except Exception:
+                pass
+        elif name == "refused_level_range":
+            try:
+                sc.set_combi_parameters(3, 1)       # lmin > lmax
+                sc.get_total_num_points()
+            except Exception:
+                pass
         else:
             raise core.HarnessError("unknown observer %r" % name)
     plt.close("all")
 
 
 OBSERVERS = ["print_resulting_combi_scheme", "print_subspaces", "print_resulting_sparsegrid", "plot", "plot_contour", "check_combi_scheme",
-             "get_points_and_weights", "get_surplusses", "save_restore", "points_per_component"]
+             "get_points_and_weights", "get_surplusses", "save_restore", "points_per_component",
+             "refused_out_of_box_interpolation", "refused_out_of_box_grid_interpolation"]
 
 
 def _reuse_case(c):
